@@ -34,6 +34,7 @@ type Engine struct {
 	needProto   bool
 	needStrID   bool
 	needB64     bool
+	allocMemo   map[*ssa.Function]int
 	dynSpecs    map[string]bool // spec functions that (transitively) mention dyn/tid
 	dynTypes    map[string]bool // struct type names whose objects carry a dynamic type tag (used by tid("T") in specs)
 	needMapHas  bool
@@ -666,6 +667,69 @@ func (e *Engine) usesDyn(fc *FuncContract) bool {
 		}
 		for d := range e.dynSpecs {
 			if strings.Contains(t, d+"(") {
+				return true
+			}
+		}
+	}
+	return false
+}
+
+// allocsTracked reports whether fn, or a function of this package it statically calls, may
+// allocate an object of a struct type that carries a dynamic type tag.
+func (e *Engine) allocsTracked(fn *ssa.Function) bool {
+	if e.allocMemo == nil {
+		e.allocMemo = map[*ssa.Function]int{}
+	}
+	switch e.allocMemo[fn] {
+	case 1:
+		return true
+	case 2, 3:
+		return false // (3 = in progress: cycles add nothing)
+	}
+	e.allocMemo[fn] = 3
+	res := false
+	for _, b := range fn.Blocks {
+		for _, in := range b.Instrs {
+			switch in := in.(type) {
+			case *ssa.Alloc:
+				if in.Heap && e.dynTag(in.Type().(*types.Pointer).Elem()) != "" {
+					res = true
+				}
+			case ssa.CallInstruction:
+				if callee := in.Common().StaticCallee(); callee != nil && callee.Pkg == e.pkg && callee.Blocks != nil {
+					if e.allocsTracked(callee) {
+						res = true
+					}
+				}
+			}
+		}
+	}
+	for _, af := range fn.AnonFuncs {
+		if e.allocsTracked(af) {
+			res = true
+		}
+	}
+	if res {
+		e.allocMemo[fn] = 1
+	} else {
+		e.allocMemo[fn] = 2
+	}
+	return res
+}
+
+// ensuresDynInvariant: some postcondition of the contract speaks about the tagged objects
+// (a representation invariant such as TrieOk()).
+func (e *Engine) ensuresDynInvariant(fc *FuncContract) bool {
+	e.usesDyn(fc) // fills dynSpecs
+	for _, cl := range fc.Clauses {
+		if cl.Kind != "ensures" {
+			continue
+		}
+		if strings.Contains(cl.Text, "dyn(") {
+			return true
+		}
+		for d := range e.dynSpecs {
+			if strings.Contains(cl.Text, d+"(") {
 				return true
 			}
 		}
